@@ -475,6 +475,15 @@ def text_of(o):
         return None
 
 
+def reported_class(o):
+    """"class of self" per the statement: the name of the class the object reports (`o.__class__`, what isinstance and a
+    reader of the method see; the same as type(o) except for proxies); None when it cannot be read."""
+    try:
+        return o.__class__.__name__
+    except BaseException:      # noqa: B902
+        return None
+
+
 class Walker:
     """describes live objects as raw facts; identity by `is` on objects it keeps alive."""
 
@@ -505,9 +514,15 @@ class Walker:
         kids = []
         f = {'ty': t.__name__, 'qual': t.__qualname__, 'tyrepr': str(t), 'dict': t is dict, 'str': text_of(o),
              'ph': '%s@%d' % (t, id(o)), 'mro': [c.__name__ for c in t.__mro__],
-             'len': {'raises': 'n/a'}, 'items': [], 'seq': {'raises': 'n/a'}, 'isexc': isinstance(o, Exception),
+             'len': {'raises': 'n/a'}, 'items': [], 'seq': {'raises': 'n/a'}, 'isexc': False,
              'args': {'raises': 'n/a'}, 'hasdict': False, 'attrs': {'raises': 'n/a'}, 'cut': not expand}
-        if isinstance(o, (dict, list, tuple, set, frozenset, str, bytes)):
+        # the walker itself goes by type(o) (never by o.__class__, which a proxy may fake or refuse); the one fact
+        # taken through isinstance is the one the statement's "exception" kind is about
+        try:
+            f['isexc'] = bool(isinstance(o, Exception))
+        except Exception as e:
+            f['isexc'] = {'raises': '%s: %s' % (type(e).__name__, e)}
+        if issubclass(t, (dict, list, tuple, set, frozenset, str, bytes)):
             f['len'] = len(o)
 
         def r(x):
@@ -515,13 +530,13 @@ class Walker:
             if new:
                 kids.append(j)
             return j
-        if isinstance(o, dict) and t is dict:
+        if t is dict:
             f['items'] = [list(self.key(k)) + [r(v)] for k, v in list(o.items())] if expand else []
-        if isinstance(o, (list, tuple, set, frozenset)):
+        if issubclass(t, (list, tuple, set, frozenset)):
             f['seq'] = [r(x) for x in tuple(o)] if expand else []
-        if isinstance(o, BaseException):
+        if issubclass(t, BaseException):
             f['args'] = [r(x) for x in tuple(o.args)] if expand else []
-        d = getattr(o, '__dict__', None) if not isinstance(o, type) and t.__name__ != 'module' else None
+        d = getattr(o, '__dict__', None) if not issubclass(t, type) and t.__name__ != 'module' else None
         has = hasattr(o, '__dict__')
         f['hasdict'] = bool(has)
         if has:
@@ -588,9 +603,10 @@ class Recorder:
             li, _ = w.ref(loc)
             s = loc.get('self') if isinstance(loc, dict) else None
             ishost = self.host.is_host_file(cur.f_code.co_filename)
+            classes = [[k, reported_class(v)] for k, v in loc.items() if v is not None and isinstance(k, str)]
             frames.append({'file': cur.f_code.co_filename, 'func': cur.f_code.co_name, 'line': cur.f_lineno,
-                           'selfclass': (type(s).__name__ if s is not None else None), 'locals': li,
-                           'names': list(loc.keys()), 'host': ishost})
+                           'selfclass': (reported_class(s) if s is not None else None), 'locals': li,
+                           'classes': classes, 'names': list(loc.keys()), 'host': ishost})
             (roots if ishost else shallow).append(li)
             cur = cur.f_back
         evals = []
@@ -709,6 +725,8 @@ def kind_children(f, lim):
     if f['ty'] in SEQ_TYPES:
         return ('set' if f['ty'] in ('set', 'frozenset') else 'seq'), \
             [(str(n), True, o) for n, o in enumerate(f['seq'][:max(lim['MAX_COLLECTION_SIZE'], 0)])]
+    if isinstance(f['isexc'], dict):
+        return 'none', []              # an object that cannot be inspected is shown without children
     if f['isexc']:
         return 'seq', [(str(n), True, o) for n, o in enumerate(f['args'][:max(lim['MAX_COLLECTION_SIZE'], 0)])]
     if f['hasdict'] and isinstance(f['attrs'], list):
@@ -1312,8 +1330,8 @@ def hit_request(tp, tid, env, rec):
             'args': [[k, v] for k, v in tp['args'].items()], 'watches': list(tp['watches']),
             'limits': [[k, v] for k, v in (tp.get('limits') or {}).items()],
             'app': resolved_app(env),
-            'stack': [{'file': f['file'], 'func': f['func'], 'line': f['line'], 'locals': f['locals']}
-                      for f in rec['frames']],
+            'stack': [{'file': f['file'], 'func': f['func'], 'line': f['line'], 'locals': f['locals'],
+                       'classes': f['classes']} for f in rec['frames']],
             'heap': [{k: o[k] for k in HEAP_KEYS} for o in rec['heap']],
             'evals': [[e, [x['obj'] for x in row]] for e, row in zip(tp['watches'], rec['evals'])]}
 
